@@ -20,6 +20,9 @@ TRUSTED = [
     "(exact for the per-attempt-channel code: nobody else accesses result/err before wg.Done)",
     "faketime runtime (virtual clock advances only when every goroutine is blocked); cmd/ftants log; python log->history conversion "
     "(pickup / attempt-creation instants are taken from the handler's ctx deadline minus T; enqueue instants are chosen by the model)",
+    "multi-pool scripts (ants_mp.py): python splits the log by pool and replays each pool on its own (ants_multi_pool_projection); the configuration used by the "
+    "monitors is python's reading of the documented option semantics (eff_pool / eff_task), the one used by the replay is the model's (apo_create / ato_create); "
+    "Get1() / Err() are replayed as AnGet2 reads (Get1 = Get2 with the error dropped; models/AntsGetters.v)",
 ]
 
 
